@@ -50,6 +50,7 @@ FUNCTIONS = ["ttconv.scc.reader:to_model", "ttconv.scc.line:SccLine.from_str", "
              "ttconv.scc.caption_paragraph:SccCaptionParagraph.indent_cursor", "ttconv.scc.caption_paragraph:SccCaptionParagraph.roll_up",
              "ttconv.scc.caption_paragraph:SccCaptionParagraph.get_last_caption_lines",
              "ttconv.scc.caption_paragraph:SccCaptionParagraph.to_paragraph", "ttconv.scc.caption_paragraph:SccCaptionParagraph.get_origin",
+             "ttconv.scc.caption_paragraph:SccCaptionParagraph.get_extent", "ttconv.scc.caption_paragraph:SccCaptionParagraph.new_caption_line",
              "ttconv.scc.caption_line:SccCaptionLine.add_text", "ttconv.scc.caption_line:SccCaptionLine.set_cursor",
              "ttconv.scc.caption_text:SccCaptionText.append", "ttconv.scc.caption_text:SccCaptionText.backspace",
              "ttconv.scc.word:SccWord.from_str", "ttconv.time_code:SmpteTimeCode.parse", "ttconv.time_code:SmpteTimeCode.add_frames",
@@ -72,6 +73,7 @@ def check(tier, seed, only=None, skip_a=False, skip_b=False):
     from specs import smpte
     hs = [c08_proofs.stream_time_harness(shape, kind) for shape in c08_proofs.SHAPES for kind in ("ndf", "df")]
     hs += [c08_proofs.cells_to_percentages_harness(kind) for kind in ("origin", "extent")]
+    hs += [c08_proofs.paragraph_box_harness(rows, ind) for rows, ind in c08_proofs.PARAGRAPH_ROWS]
     for rn in ("30", "30000/1001"):       # discharge the callee contract SmpteTimeCode.add_frames for the real body
       hs += [h for h in harnesses_for(rn, smpte.RATES[rn]) if h.name.startswith("add_frames@")]
     for h in hs:
@@ -97,7 +99,8 @@ def check(tier, seed, only=None, skip_a=False, skip_b=False):
   cov["explanation"] = ("Tier A (proved, pyvc + z3/cvc5, assumptions A-RE and the add_frames contract): on twelve concrete word streams x {`:`, `;`} the "
                         "real reader runs with symbolic time code labels on every line; begin/end of every paragraph are exact frame multiples, not "
                         "before the line's label, within the window of the triggering word, for ALL valid labels; cell coordinates -> percentages (scc.utils) is the "
-                        "nearest integer per component with x/y kept apart and rows distinct and ordered, for all integer cells on the 32 x 15 grid.  Tier B: generated SCC streams (pop-on, roll-up, paint-on and mixed grammars x text_align "
+                        "nearest integer per component with x/y kept apart and rows distinct and ordered, for all integer cells on the 32 x 15 grid; the box of a caption built through the real set_cursor_at / append_text on twelve "
+                        "concrete row/indent layouts is (smallest indent, first row - 1) plus the safe-area offsets for ALL offsets, lines keep row, indent and text.  Tier B: generated SCC streams (pop-on, roll-up, paint-on and mixed grammars x text_align "
                         "configuration) are read by the real to_model and compared frame by frame (characters, rows, style runs, change "
                         "times) with an independent CEA-608 decoder (bounded, not counted as proved).")
   cov["trusted_base"] = ASSUMPTIONS
